@@ -141,10 +141,42 @@ def main():
                 pass
             finally:
                 signal.setitimer(signal.ITIMER_REAL, 0)
+        # storages with holes, overlaps, empty and reversed ranges: open and read across every boundary
+        for case in range(max(n * 6, 30)):
+            k = rng.randint(1, 4)
+            ranges = []
+            for _ in range(k):
+                a = rng.randint(0, 40)
+                ranges.append((a, a + rng.randint(-3, 24)))
+            root = Path(d) / f"s{case}.hdd"
+            root.mkdir()
+            sts = "".join(f"<Storage><Start>{a}</Start><End>{b}</End><Image><GUID>{G[0]}</GUID><Type>Plain</Type><File>y{i}.hds</File></Image></Storage>" for i, (a, b) in enumerate(ranges))
+            (root / "DiskDescriptor.xml").write_text(f'<?xml version="1.0"?><Parallels_disk_image><StorageData>{sts}</StorageData><Snapshots><Shot><GUID>{G[0]}</GUID><ParentGUID>{NULLG}</ParentGUID></Shot></Snapshots></Parallels_disk_image>')
+            for i, (a, b) in enumerate(ranges):
+                (root / f"y{i}.hds").write_bytes(bytes([i + 1]) * (max(b - a, 0) * 512))
+            points = sorted({p for a, b in ranges for p in (a, b, a - 1, b - 1) if p >= 0})
+            for pt in points[:10]:
+                evals += 1
+                signal.setitimer(signal.ITIMER_REAL, 5.0)
+                try:
+                    s_ = HDD(root).open(G[0])
+                    s_.align = 512
+                    s_.seek(pt * 512)
+                    s_.read(2048)
+                except Timeout:
+                    fails.append({"kind": "timeout", "mutation": f"storages {ranges} read at sector {pt}", "detail": "no return within 5s"})
+                    break
+                except MemoryError:
+                    fails.append({"kind": "memory", "mutation": f"storages {ranges} read at sector {pt}", "detail": "MemoryError"})
+                    break
+                except BaseException:  # noqa: BLE001
+                    pass
+                finally:
+                    signal.setitimer(signal.ITIMER_REAL, 0)
         import shutil
 
         shutil.rmtree(d, ignore_errors=True)
-        json.dump({"evaluations": evals, "distinct": evals, "failures": fails}, sys.stdout)
+        json.dump({"evaluations": evals, "distinct": evals, "failures": fails[:5]}, sys.stdout)
         return
     evals = 0
     distinct = 0
